@@ -362,6 +362,10 @@ def handle (ops : CharOps) (j : Json) : Json :=
     -- the per-character contract `EscOk` of the escape table, evaluated on the given characters
     let bad := (gs j "s").filter fun c => TsParse.litBody .normal ['x'] (Case.jsEsc (ops.escDebug c) ++ ['y', '"', 'z']) != some (['x', c, 'y'], ['z'])
     Json.mkObj [("bad", S bad)]
+  | "esc_lex" =>
+    -- the lexical contract `EscLex` of the escape table, evaluated on the given characters
+    let bad := (gs j "s").filter fun c => !Comment.litBodyB '"' (Case.jsEsc (ops.escDebug c))
+    Json.mkObj [("bad", S bad)]
   | "ts_ident" => Json.mkObj [("ok", S (Case.toTsIdent (gs j "s")))]
   | "absolute" => resStr (Path.absolute (gs j "cwd") (gs j "p"))
   | "diff_paths" => resStr (Path.diffPaths (gs j "cwd") (gs j "path") (gs j "base"))
